@@ -1023,6 +1023,11 @@ func c13OpMonitor(w *c13World, step int, op c13Op, cls Class, before, after *c13
 		if incoming {
 			wantDir = 1
 		}
+		if uint64(before.height)+op.Span < uint64(before.height) {
+			// an expiry height that wraps around uint64 (0 is refused by genesis validation: the
+			// state could not be exported and re-imported; small values expire the swap at once)
+			return "create-expiry-does-not-wrap", "create-accepted-with-wrapped-expiry", fmt.Sprintf("height %d + span %d wraps to %d", before.height, op.Span, x.Expire)
+		}
 		if x.Dir == 1 && !incoming {
 			return "incoming-only-deputy", "non-deputy-created-incoming-swap", fmt.Sprintf("sender %d is not the deputy %d of %s", op.Sender, a.Deputy, c13Denoms[d])
 		}
@@ -1450,13 +1455,16 @@ var c13AllSplits = []string{
 	"err:supply-limit", "err:time-limit", "err:available-supply", "err:wrong-secret", "err:not-claimable", "err:not-refundable",
 	"err:swap-exists", "err:fee", "err:amount-range", "err:timestamp", "err:height-span", "err:swap-account",
 	"race:claim-refused-at-expiry-block", "race:refund-same-block-as-expiry", "race:claim-last-block-before-expiry",
-	"id-reused-after-deletion", "span-wraps-uint64",
+	"id-reused-after-deletion", "span-wrap-refused",
 }
 
 func c13Splits(w *c13World, step int, op c13Op, cls Class, err error, before, after *c13Snap, l *c13Ledger, lastBlockStep int, expiredAtLastBlock map[string]bool, everDeleted map[string]bool, mark func(string)) {
 	if cls == ClassErr {
 		k := c13ErrKind(err)
 		mark("err:" + k)
+		if op.Kind == "create" && uint64(before.height)+op.Span < uint64(before.height) {
+			mark("span-wrap-refused")
+		}
 		if op.Kind == "claim" && k == "not-claimable" && expiredAtLastBlock[op.ID] {
 			mark("race:claim-refused-at-expiry-block")
 		}
@@ -1483,9 +1491,6 @@ func c13Splits(w *c13World, step int, op c13Op, cls Class, err error, before, af
 			tl := new(big.Int).Add(after.sup[d].TL, after.sup[d].Inc)
 			if a.TimeLimited && tl.Cmp(big.NewInt(a.TLimit)) == 0 {
 				mark("create:incoming:exactly-at-time-limit")
-			}
-			if uint64(before.height)+op.Span < uint64(before.height) {
-				mark("span-wraps-uint64")
 			}
 		} else {
 			mark("create:outgoing")
